@@ -17,19 +17,21 @@ open CashewsVerif.Redis.CS (Op step qrun qstep)
 
 /- The full statement (for every command of `CS.Op`) is
 
-     theorem agreement_at_quiescence (isEnc) (ops : List CS.Op) (h : every written object is decodable, `expire` > 0,
-         `set_many` keys distinct, no lock commands) : Agree (CS.qrun (St.init isEnc) ops).1 ∧ Quiet (…)
+     theorem agreement_at_quiescence (isEnc) (ops : List Op) (h : every written object is decodable, `expire` > 0,
+         `set_many` keys distinct) : Quiet (qrun (St.init isEnc) ops).1 ∧ Agree (qrun (St.init isEnc) ops).1
 
    It is proved below for histories over the commands listed in `CS.Covered`:
-   get, exists, set (plain and conditional), delete, clear (flush), drop, reconnect and time advances (expiry).
-   NOT YET PROVED (covered by the correspondence check only): get_many, set_many, incr, delete_many, delete_match,
-   expire, set_lock/unlock.  What is missing is only the per-command preservation lemma (`inv_<command>` in
-   Lemmas/ClientSideInv.lean, from `after_write` + `inv_after`); the invariant, the delivery lemmas and the locality of
-   the server commands (`exec_outside`, `srvCmd_facts`) are already general. -/
+   get, get_many, exists, set (plain and conditional), incr without TTL, delete, delete_many, delete_match, expire (> 0),
+   clear (flush), drop, reconnect and time advances (expiry).
+   NOT YET PROVED (covered by the correspondence check only): set_many, incr with a TTL (the Lua script path) and
+   set_lock/unlock (lock keys hold raw tokens, which the read path does not decode).  What is missing is only the
+   per-command preservation lemma (`inv_<command>` in Lemmas/ClientSideInv.lean, from `after_write` + `inv_after`); the
+   invariant, the delivery lemmas and the locality of the server commands (`exec_outside`, `srvCmd_facts`) are general. -/
 
-/-- **Agreement at quiescent points (partial: the commands of `Covered`).**  For every history of reads, writes,
-conditional writes, deletes, flushes, time advances across TTLs, drops of the invalidation connection and reconnects,
-issued by any number of clients, with delivery completed after each command: nothing is in flight (`Quiet`) and every
+/-- **Agreement at quiescent points (partial: the commands of `Covered`).**  For every history of reads (get, get_many,
+exists), writes, conditional writes, increments, deletes, pattern deletes, re-timings, flushes, time advances across
+TTLs, drops of the invalidation connection and reconnects, issued by any number of clients, with delivery completed
+after each command: nothing is in flight (`Quiet`) and every
 live entry of every connected client's local copy says what the server says — a value is the server's value, a
 "known absent" marker means the server has nothing readable under that key (`Agree`). -/
 theorem agreement_at_quiescence_partial (isEnc : String → Bool) (ops : List CS.Op)
@@ -37,14 +39,16 @@ theorem agreement_at_quiescence_partial (isEnc : String → Bool) (ops : List CS
     Quiet (CS.qrun (St.init isEnc) ops).1 ∧ Agree (CS.qrun (St.init isEnc) ops).1 :=
   (inv2_qrun ops (St.init isEnc) (inv2_init isEnc) hcov).1
 
-/-- …hence, at such a point, `get` and `exists` of ANY client (connected or not) answer exactly what the server holds. -/
+/-- …hence, at such a point, `get`, `get_many` and `exists` of ANY client (connected or not) answer exactly what the
+server holds. -/
 theorem reads_equal_server (isEnc : String → Bool) (ops : List CS.Op) (hcov : ∀ op ∈ ops, Covered isEnc op)
-    (i : Nat) (k : String) :
+    (i : Nat) (k : String) (ks : List String) :
     let st := (CS.qrun (St.init isEnc) ops).1
-    (CS.step st (.get i k)).2 = .val (srvValue st k) ∧ (CS.step st (.exists_ i k)).2 = .bool (st.srv.ks.present k) := by
+    (CS.step st (.get i k)).2 = .val (srvValue st k) ∧ (CS.step st (.exists_ i k)).2 = .bool (st.srv.ks.present k) ∧
+    (CS.step st (.getMany i ks)).2 = .vals (ks.map (srvValue st)) := by
   intro st
   have h := (agreement_at_quiescence_partial isEnc ops hcov).2
-  exact ⟨get_eq_server st h i k, exists_eq_server st h i k⟩
+  exact ⟨get_eq_server st h i k, exists_eq_server st h i k, getMany_eq_server st h i ks⟩
 
 /-- **A conditional write the server rejected never becomes readable from the writer's local copy** (any state,
 quiescent or not): the local copy of the writer is exactly what it was, and so are everybody else's. -/
@@ -113,24 +117,27 @@ theorem drop_empties_local (st : St) (i : Nat) :
 def dec : String → Bool := fun _ => true
 
 /-- two clients: a write read by the other, an overwrite, a rejected conditional write, a delete, a TTL crossing,
-a drop with a write in between, a reconnect, a flush -/
+a counter, a re-timing, a pattern delete, a drop with a write in between, a reconnect, a flush -/
 def sampleHist : List CS.Op :=
   [.set 0 "k" (.int 1) (some 1000) .always, .get 1 "k", .set 1 "k" (.obj "aa") none .always, .get 0 "k",
    .set 0 "k" (.int 5) none .nx, .get 0 "k", .delete 1 "k", .get 0 "k", .set 1 "j" (.int 7) (some 500) .always, .get 0 "j",
-   .adv 500, .get 0 "j", .drop 0, .set 1 "j" (.int 8) none .always, .get 0 "j", .adv 10000, .reconnect 0, .get 0 "j",
-   .set 1 "j" (.int 9) none .always, .get 0 "j", .clear 1, .get 0 "j"]
+   .adv 500, .get 0 "j", .incr 0 "c" 1 none, .getMany 1 ["c", "j", "k"], .incr 1 "c" 1 none, .get 0 "c", .expire 0 "c" 300,
+   .adv 300, .getMany 1 ["c"], .set 0 "k:1" (.int 3) none .always, .get 1 "k:1", .deleteMatch 1 "k:*", .get 0 "k:1",
+   .drop 0, .set 1 "j" (.int 8) none .always, .get 0 "j", .adv 10000, .reconnect 0, .get 0 "j",
+   .set 1 "j" (.int 9) none .always, .get 0 "j", .deleteMany 0 ["j", "zz"], .get 1 "j", .clear 1, .get 0 "j"]
 
 example : ∀ op ∈ sampleHist, Covered dec op := by
   intro op hop
   simp only [sampleHist, List.mem_cons, List.mem_nil_iff, or_false] at hop
-  rcases hop with h | h | h | h | h | h | h | h | h | h | h | h | h | h | h | h | h | h | h | h | h | h <;> subst h <;>
-    simp [Covered, dec]
+  repeat (first | (rcases hop with h | hop; · subst h; simp [Covered, dec, pxOf]) | (subst hop; simp [Covered, dec, pxOf]))
 
 /-- the model computes on it: every read is the server's content of that moment -/
 example : (CS.qrun (St.init dec) sampleHist).2 =
     [.bool true, .val (some (.int 1)), .bool true, .val (some (.obj "aa")), .bool false, .val (some (.obj "aa")), .bool true,
-     .val none, .bool true, .val (some (.int 7)), .none_, .val none, .none_, .bool true, .val (some (.int 8)), .none_, .none_,
-     .val (some (.int 8)), .bool true, .val (some (.int 9)), .none_, .val none] := by decide +kernel
+     .val none, .bool true, .val (some (.int 7)), .none_, .val none, .int 1, .vals [some (.int 1), none, none], .int 2,
+     .val (some (.int 2)), .none_, .none_, .vals [none], .bool true, .val (some (.int 3)), .none_, .val none, .none_, .bool true,
+     .val (some (.int 8)), .none_, .none_, .val (some (.int 8)), .bool true, .val (some (.int 9)), .none_, .val none, .none_,
+     .val none] := by decide +kernel
 
 /-- a rejected conditional write exists (the premise of `rejected_conditional_never_readable` is reachable) -/
 example : (CS.step (CS.qrun (St.init dec) [.set 0 "k" (.int 1) none .always]).1 (.set 1 "k" (.int 2) none .nx)).2 = .bool false := by
